@@ -258,11 +258,11 @@ def format_value(interp, val, conv, spec):
             raise OutOfReach(f"format spec {spec!r} on symbolic int")
         width = int(m.group(4)) if m.group(4) else 1
         ln = _fmtlen(I(hash(spec) % 100003), val.t)
-        key = ("fmtlen", spec, str(val.t))
+        key = ("fmtlen", spec, val.t.get_id())
         if key not in c.ghost:
             c.ghost[key] = True
             c.assume(ln >= max(width, 1))
-        return mk_rope("str", [BX(("fmt", spec, str(simp(val.t))), ln, {"free_of": frozenset(), "term": val.t, "spec": spec})])
+        return mk_rope("str", [BX(("fmt", spec, simp(val.t).sexpr()), ln, {"free_of": frozenset(), "term": val.t, "spec": spec})])
     if isinstance(val, Rope):
         raise OutOfReach(f"format spec {spec!r} on symbolic string")
     if val is None or isinstance(val, (IObj, IClass, SAny)):
@@ -319,7 +319,17 @@ def _parse_fmt(fmt):
 
 
 def le_bytes(u, n, order="<"):
-    items = [simp((u / I(256 ** k)) % 256) for k in range(n)]
+    """bytes of 0 <= u < 256**n (the caller has established the range): the top byte needs no modulo"""
+    from .sym import bounds
+    lo_b, hi_b = bounds(simp(u))
+    items = []
+    for k in range(n):
+        if lo_b is not None and hi_b is not None and lo_b >= 0 and hi_b < 256 ** k:
+            items.append(I(0))
+        elif k == n - 1:
+            items.append(simp(u / I(256 ** k)) if k else simp(u))
+        else:
+            items.append(simp((u / I(256 ** k)) % 256))
     if order == ">":
         items.reverse()
     return items
@@ -377,6 +387,8 @@ def _int_from(items, signed, order):
     for k, it in enumerate(items):
         u = u + T(it) * I(256 ** k)
     n = len(items)
+    from .sym import recombine_bytes
+    u = recombine_bytes(u)
     if signed:
         u = z3.If(u >= (1 << (8 * n - 1)), u - (1 << (8 * n)), u)
     return simp(u)
